@@ -54,6 +54,12 @@ Definition resp_eq_before_fix (o1 o2 : hmap -> hmap) (a b : response) : bool :=
   && zip_all (o1 (p_headers a)) (o2 (p_headers b))
   && opt_bytes_eqb (p_body a) (p_body b).
 
+(* `mod header_serde`: the headers of a serialized Response, in the order in which they are written.
+   After the fix: commit 369cd46 the entries are sorted by name; before it they were written in
+   iteration order.  (Version, status and body are plain fields.) *)
+Definition resp_wire_headers (o : hmap -> hmap) (r : response) : hmap := sort_entries (o (p_headers r)).
+Definition resp_wire_headers_before_fix (o : hmap -> hmap) (r : response) : hmap := o (p_headers r).
+
 (* "contents are equal": same version, status and body, and under every name the same values *)
 Definition same_contents (a b : response) : Prop :=
   p_version a = p_version b /\ p_status a = p_status b /\ p_body a = p_body b /\
